@@ -359,6 +359,24 @@ pub fn check_c18(tier: &str) -> i32 {
             }
         }
     }
+    // the shared-reference wrapper of the fixed helper code: an envelope edited to hold one must stay Send + Sync
+    match multiref_case() {
+        Err(why) => rep.set("multiref_probe", json!(format!("not applicable: {why}"))),
+        Ok(case) => {
+            let mres = run_batch("c18m", &[case], 60_000);
+            match mres.compile_errors.get("multiref") {
+                Some(ds) => {
+                    let send_related: Vec<_> = ds.iter().filter(|d| d.message.contains("cannot be sent between threads") || d.message.contains("cannot be shared between threads")).collect();
+                    if let Some(d) = send_related.first() {
+                        agg.add(Violation::new("C18", "send.not_send", "helper").ctx("envelope", "holds-multi-ref").exp("MultiRef<T> of the fixed helper code is Send + Sync when T is").act(format!("{} | {}", d.message, d.snippet)).depth(0).case(json!({"case": "multi_ref::MultiRef of the emitted file instantiated with the request envelope and with String"})));
+                    } else {
+                        rep.set("multiref_probe", json!(format!("not applicable: probe does not compile for another reason: {}", ds[0].message)));
+                    }
+                }
+                None => rep.set("multiref_probe", json!("MultiRef<request envelope> and MultiRef<String> are Send + Sync")),
+            }
+        }
+    }
     agg.flush(&mut rep);
     rep.set("states", json!(p.states.len()));
     rep.set("transitions", json!(p.transitions));
@@ -367,9 +385,25 @@ pub fn check_c18(tier: &str) -> i32 {
     rep.set("distinct_client_shapes", json!(shapes));
     rep.set("batch", json!({"packages": res.packages, "cache_hits": res.cache_hits, "build_s": res.build_secs}));
     rep.set("exhaustive", json!(true));
-    rep.set("bound", json!("every state of the C05 scope (all generated client shapes: with/without headers, with/without output, service methods and free-standing soapAction functions) + the fixed helper driven with a hand-written request envelope that is Send but not Sync"));
+    rep.set("bound", json!("every state of the C05 scope (all generated client shapes: with/without headers, with/without output, service methods and free-standing soapAction functions) + the fixed helper driven with a hand-written request envelope that is Send but not Sync + the helper's MultiRef wrapper instantiated with an envelope"));
     rep.assume("the per-program verdict is rustc's trait solver (exact for auto traits); the exploration is over client shapes");
     rep.finish()
+}
+
+/// `MultiRef` of the emitted file (found by name in a top-level module) must be Send + Sync for a Send + Sync payload
+fn multiref_case() -> Result<BatchCase, String> {
+    let set = wsdlgen::wsdl_with(&[wsdlgen::OpSpec::simple("GetThing")], "ThingService", "http://127.0.0.1:9/thing");
+    let text = match crate::runner::run_inproc(&set.to_case()) {
+        crate::runner::Outcome::Ok(s) => s,
+        o => return Err(format!("generator: {}", o.brief())),
+    };
+    let ex = crate::extract::extract(&text).map_err(|e| format!("parse: {e}"))?;
+    let mr = ex.structs.iter().find(|s| s.name == "MultiRef" && s.module.len() == 1).ok_or("no top-level module defines a struct MultiRef")?;
+    let view = discover(&ex);
+    let req_env = view.services.iter().flat_map(|(_, ms)| ms.iter()).find_map(|m| m.req.map(|a| a.name.clone())).ok_or("no request envelope")?;
+    let path = format!("{}::MultiRef", mr.module[0]);
+    let appended = format!("\npub fn zv_multiref_probe() -> usize {{\n    fn ss<T: Send + Sync>() {{}}\n    ss::<{req_env}>();\n    ss::<{path}<{req_env}>>();\n    ss::<{path}<String>>();\n    2\n}}\n");
+    Ok(BatchCase { id: "multiref".into(), emitted: format!("{text}\n{appended}"), driver: Some("pub fn run(out: &mut zvp::Out) { let n = zg::zv_multiref_probe(); out.emit(\"multiref\", &n.to_string()); }".into()) })
 }
 
 /// A case that drives the fixed helper code with a request envelope that is Send but NOT Sync
